@@ -39,11 +39,12 @@ theorem exchange_agree {Ct} (P : XP Ct) (hP : LawfulXP P) (cc : CCfg) (ct : CTap
   exact ⟨rfl, rfl, rfl, hs⟩
 
 /-- … and they do finish — with the key `g^(a·b) mod p` — whenever the client trusts the server's
-key, the factorisation succeeds, both are configured for the same DC, and the prime and the two
+key, pq is composite and its factorisation succeeds, both are configured for the same DC, and the prime and the two
 exponents drawn by the tapes pass the client's DH checks. -/
 theorem exchange_completes {Ct} (P : XP Ct) (hP : LawfulXP P) (cc : CCfg) (ct : CTape) (sc : SCfg) (st : STape)
     (p q : Nat)
-    (htrust : sc.fp ∈ cc.keys) (hpq : st.pq ≤ 2 ^ 63) (hfac : P.factor st.pq = some (p, q))
+    (htrust : sc.fp ∈ cc.keys) (hpq : st.pq ≤ 2 ^ 63) (hpq1 : 1 < st.pq) (hcomp : P.isPrime st.pq = false)
+    (hfac : P.factor st.pq = some (p, q))
     (hdc : cc.dc = sc.dc)
     (hdh : checkDH P.isPrime 3 st.dhPrime = true)
     (hpar : checkDHParams st.dhPrime 3 (3 ^ st.a % st.dhPrime) (3 ^ ct.b % st.dhPrime) = true) :
@@ -52,7 +53,7 @@ theorem exchange_completes {Ct} (P : XP Ct) (hP : LawfulXP P) (cc : CCfg) (ct : 
     (honestRun P cc ct sc st).2.1 =
       .done ⟨3 ^ (st.a * ct.b) % st.dhPrime, serverSalt ct.newNonce st.serverNonce⟩ := by
   have hg := server_generator_is_3
-  have h := honest_completes P hP cc ct sc st p q htrust (by rw [pq_bound_is_2_63]; exact hpq) hfac hdc
+  have h := honest_completes P hP cc ct sc st p q htrust (by rw [pq_bound_is_2_63]; exact hpq) hpq1 hcomp hfac hdc
     (by rw [hg]; exact hdh) (by simp only [powMod_eq, hg]; exact hpar)
   have e : powMod (powMod serverG st.a st.dhPrime) ct.b st.dhPrime = 3 ^ (st.a * ct.b) % st.dhPrime := by
     rw [powMod_eq, powMod_eq, ← Nat.pow_mod, ← Nat.pow_mul, hg]
@@ -94,7 +95,7 @@ theorem key_nonzero {Ct} (P : XP Ct) (cfg : CCfg) (t : CTape) (ms : List (Msg Ct
     (hprime : ∀ n sn ans d, Msg.dhOk n sn ans ∈ ms →
       P.decS (tempAESKeys P.sha1 t.newNonce sn) ans = some d → IsPrime d.dhPrime) :
     r.key ≠ 0 ∧ keyBytes r.key ≠ List.replicate 256 0 := by
-  obtain ⟨sn, pq, fps, fp, p, q, ans, d, hash, rest, hms, _, _, _, hdec, _, _, hdh, hpar, _, hr⟩ :=
+  obtain ⟨sn, pq, fps, fp, p, q, ans, d, hash, rest, hms, _, _, _, _, hdec, _, _, hdh, hpar, _, hr⟩ :=
     crun_done_implies P cfg t ms r outs h
   have hp : IsPrime d.dhPrime := hprime t.nonce sn ans d (by rw [hms]; simp) hdec
   obtain ⟨_, _, ha1, ha2, _⟩ := checkDHParams_true _ _ _ _ hpar
